@@ -14,7 +14,7 @@ BUDGET = {"quick": 200, "thorough": 1800}
 ANCHORED = ["PytorchEngine.train_step", "_AdversarialFairness.partial_fit", "BackendEngine.__init__"]
 RULE = ("random cases: batches of 2..16 rows with 1..5 inputs; predictor and adversary are torch modules owned by the harness (0..2 "
         "hidden layers of width 1..6, ReLU/tanh; final sigmoid / softmax / identity according to the target type) so their parameters "
-        "are snapshotted before and after ONE training step (first partial_fit, or fit with one batch) under plain SGD (lr eta for "
+        "are snapshotted before and after EVERY training step (1..3 consecutive partial_fit calls, or fit with one batch) under plain SGD (lr eta for "
         "both optimisers); binary / 3-4-class / continuous targets and sensitive features; demographic parity and equalized odds; "
         "alpha in {0,0.3,1,5}; eta in {0.01,0.1,1}. Oracle (autograd on deep copies taken before the step, documented losses: BCE, "
         "cross-entropy, MSE with mean reduction): per predictor tensor (W_before-W_after)/eta = dLP/dW - proj_{dLA/dW}(dLP/dW) - "
@@ -73,40 +73,10 @@ def loss_fn(torch, name):
     return {"bce": torch.nn.BCELoss(reduction="mean"), "ce": torch.nn.CrossEntropyLoss(reduction="mean"), "mse": torch.nn.MSELoss(reduction="mean")}[name]
 
 
-def run_case(cls, key, seed, ctx):
-    import torch
-
-    torch.set_num_threads(1)
-    from fairlearn.adversarial import AdversarialFairnessClassifier, AdversarialFairnessRegressor
-
-    rng = rng_for(seed, ID, cls, key)
-    ykind = gen.pick(rng, ["binary", "binary", "multiclass", "continuous"])
-    akind = gen.pick(rng, ["binary", "binary", "multiclass", "continuous"])
-    nmin = 5 if "multiclass" in (ykind, akind) else 2
-    n = int(rng.integers(nmin, 17))
-    d = int(rng.integers(1, 6))
-    X = rng.normal(size=(n, d)).round(3)
-    y_raw, Y, ny, yfinal, yloss = make_target(rng, n, ykind)
-    a_raw, A, na, afinal, aloss = make_target(rng, n, akind)
-    constraint = gen.pick(rng, ["demographic_parity", "equalized_odds"])
-    alpha = float(gen.pick(rng, [0.0, 0.3, 1.0, 5.0]))
-    eta = float(gen.pick(rng, [0.01, 0.1, 1.0]))
-    entry = gen.pick(rng, ["partial_fit", "fit_one_batch"])
-    pred = build_module(torch, rng, d, ny, yfinal)
-    adv = build_module(torch, rng, ny * (2 if constraint == "equalized_odds" else 1), na, afinal)
-    pred0, adv0 = copy.deepcopy(pred), copy.deepcopy(adv)
-    Est = AdversarialFairnessRegressor if ykind == "continuous" else AdversarialFairnessClassifier
-    est = Est(backend="torch", predictor_model=pred, adversary_model=adv,
-              predictor_optimizer=lambda m: torch.optim.SGD(m.parameters(), lr=eta), adversary_optimizer=lambda m: torch.optim.SGD(m.parameters(), lr=eta),
-              constraints=constraint, alpha=alpha, batch_size=-1 if entry == "fit_one_batch" else 4, epochs=1, shuffle=False, random_state=int(rng.integers(0, 1000)))
-    shapes = [tuple(p.shape) for p in pred0.parameters()]
-    wit = {"target": ykind, "sensitive": akind, "constraint": constraint, "alpha": alpha, "eta": eta, "entry": entry, "n": n,
-           "predictor_shapes": [list(s) for s in shapes], "adversary_shapes": [list(p.shape) for p in adv0.parameters()]}
-    if entry == "partial_fit":
-        est.partial_fit(X, y_raw, sensitive_features=a_raw)
-    else:
-        est.fit(X, y_raw, sensitive_features=a_raw)
-        ctx.check(getattr(est, "n_iter_", None) == 1, "fit_with_one_batch_did_not_do_exactly_one_step", n_iter=getattr(est, "n_iter_", None), wit=wit)
+def check_step(ctx, torch, pred0, adv0, pred, adv, X, Y, A, yloss, aloss, constraint, alpha, eta, step, wit):
+    """One SGD step: (pred0, adv0) are copies taken before it, (pred, adv) the user-visible modules after it."""
+    nontrivial = False
+    wit = dict(wit, step=step + 1)
     # ---- reference gradients on the copies taken before the step
     Xt, Yt, At = torch.from_numpy(X).float(), torch.from_numpy(Y).float(), torch.from_numpy(A).float()
     yhat = pred0(Xt)
@@ -117,7 +87,6 @@ def run_case(cls, key, seed, ctx):
     LA = loss_fn(torch, aloss)(adv0(adv_in), At)
     dLA = torch.autograd.grad(LA, pparams, retain_graph=True, allow_unused=True)
     dLA_U = torch.autograd.grad(LA, list(adv0.parameters()), allow_unused=True)
-    nontrivial = False
     for i, (p_before, p_after) in enumerate(zip(pparams, pred.parameters())):
         gP = dLP[i] if dLP[i] is not None else torch.zeros_like(p_before)
         gA = dLA[i] if dLA[i] is not None else torch.zeros_like(p_before)
@@ -149,4 +118,51 @@ def run_case(cls, key, seed, ctx):
         err = float((observed - gU).abs().max())
         ctx.ev("adversary_tensors_compared")
         ctx.check(err <= atol, "adversary_update_is_not_the_plain_gradient_of_its_loss", tensor=i, shape=list(u_before.shape), max_abs_err=err, tol=atol, wit=wit)
+    return nontrivial
+
+
+def run_case(cls, key, seed, ctx):
+    import torch
+
+    torch.set_num_threads(1)
+    from fairlearn.adversarial import AdversarialFairnessClassifier, AdversarialFairnessRegressor
+
+    rng = rng_for(seed, ID, cls, key)
+    ykind = gen.pick(rng, ["binary", "binary", "multiclass", "continuous"])
+    akind = gen.pick(rng, ["binary", "binary", "multiclass", "continuous"])
+    nmin = 5 if "multiclass" in (ykind, akind) else 2
+    n = int(rng.integers(nmin, 17))
+    d = int(rng.integers(1, 6))
+    X = rng.normal(size=(n, d)).round(3)
+    y_raw, Y, ny, yfinal, yloss = make_target(rng, n, ykind)
+    a_raw, A, na, afinal, aloss = make_target(rng, n, akind)
+    constraint = gen.pick(rng, ["demographic_parity", "equalized_odds"])
+    alpha = float(gen.pick(rng, [0.0, 0.3, 1.0, 5.0]))
+    eta = float(gen.pick(rng, [0.01, 0.1, 1.0]))
+    entry = gen.pick(rng, ["partial_fit", "fit_one_batch"])
+    pred = build_module(torch, rng, d, ny, yfinal)
+    adv = build_module(torch, rng, ny * (2 if constraint == "equalized_odds" else 1), na, afinal)
+    pred0, adv0 = copy.deepcopy(pred), copy.deepcopy(adv)
+    Est = AdversarialFairnessRegressor if ykind == "continuous" else AdversarialFairnessClassifier
+    est = Est(backend="torch", predictor_model=pred, adversary_model=adv,
+              predictor_optimizer=lambda m: torch.optim.SGD(m.parameters(), lr=eta), adversary_optimizer=lambda m: torch.optim.SGD(m.parameters(), lr=eta),
+              constraints=constraint, alpha=alpha, batch_size=-1 if entry == "fit_one_batch" else 4, epochs=1, shuffle=False, random_state=int(rng.integers(0, 1000)))
+    shapes = [tuple(p.shape) for p in pred0.parameters()]
+    wit = {"target": ykind, "sensitive": akind, "constraint": constraint, "alpha": alpha, "eta": eta, "entry": entry, "n": n,
+           "predictor_shapes": [list(s) for s in shapes], "adversary_shapes": [list(p.shape) for p in adv0.parameters()]}
+    nontrivial = False
+    n_steps = 1 if entry == "fit_one_batch" else int(gen.pick(rng, [1, 2, 3]))
+    wit["steps"] = n_steps
+    for step in range(n_steps):
+        if step > 0:
+            pred0, adv0 = copy.deepcopy(pred), copy.deepcopy(adv)   # state before this step
+        if entry == "partial_fit":
+            # later steps reuse the rows in another order (same classes, so the label transforms stay valid)
+            order = np.arange(n) if step == 0 else rng.permutation(n)
+            est.partial_fit(X[order], y_raw[order], sensitive_features=a_raw[order])
+        else:
+            order = np.arange(n)
+            est.fit(X, y_raw, sensitive_features=a_raw)
+            ctx.check(getattr(est, "n_iter_", None) == 1, "fit_with_one_batch_did_not_do_exactly_one_step", n_iter=getattr(est, "n_iter_", None), wit=wit)
+        nontrivial |= check_step(ctx, torch, pred0, adv0, pred, adv, X[order], Y[order], A[order], yloss, aloss, constraint, alpha, eta, step, wit)
     ctx.mark([ykind, akind, constraint, shapes, alpha, eta, entry], nontrivial, sample=wit)
